@@ -81,10 +81,11 @@ def model(pkts, meta, k, states=None):
     return out
 
 
-def run_impl(defn, stream, k, skip=0):
+def run_impl(defn, stream, k, skip=0, **more):
     with observed_warnings() as w:
         try:
             kw = {"skip_header_bytes": skip} if skip else {}
+            kw.update(more)
             out = list(defn.packet_generator(stream, combine_segmented_packets=True, secondary_header_bytes=k, **kw))
         except Exception as e:  # noqa: BLE001
             return ("raised", exc_names(e)[0], str(e)[:100]), len(w)
@@ -115,7 +116,21 @@ def tm_only_definition():
     return _TM_ONLY
 
 
-def check_history(t: Tally, defn, hist, base, k, states, vary=False, skip=0, alphabet="A", bare=False, tm_only=False):
+_U32 = None
+
+
+def u32_definition():
+    """A definition whose packets hold exactly one 32-bit field: a group of two 2-byte segments fits it, a single packet (2 bytes) and a group of
+    three (6 bytes) do not - with parse_bad_pkts=False those are withheld, and nothing else changes."""
+    global _U32
+    if _U32 is None:
+        from mc.spec import Container, Doc, IntEnc, Param, PType, header_entries, header_params, header_ptypes, load_doc
+        _U32 = load_doc(Doc(tuple(header_ptypes()) + (PType("W_T", "Integer", IntEnc(32)),), tuple(header_params()) + (Param("W", "W_T"),),
+                            (Container("CCSDSPacket", tuple(header_entries()) + (("p", "W"),)),)))
+    return _U32
+
+
+def check_history(t: Tally, defn, hist, base, k, states, vary=False, skip=0, alphabet="A", bare=False, tm_only=False, exact4=False):
     syms = SYMS_B if alphabet == "B" else SYMS_C if alphabet == "C" else SYMS
     stream, pkts, meta = build_history(hist, base, k, vary, skip, syms, bare)
     want = model(pkts, meta, k, states)
@@ -123,7 +138,12 @@ def check_history(t: Tally, defn, hist, base, k, states, vary=False, skip=0, alp
         # the combined packet carries the header of its FIRST segment: outputs of type 1 are not recognised and not yielded
         defn = tm_only_definition()
         want = [w for w in want if not (w[0] >> 4) & 1]
-    got, nwarn = run_impl(defn, stream, k, skip)
+    more = {}
+    if exact4:
+        defn = u32_definition()
+        want = [w for w in want if len(w) == 6 + 4]
+        more = {"parse_bad_pkts": False}
+    got, nwarn = run_impl(defn, stream, k, skip, **more)
     t.evals += 1
     t.transitions += len(hist)
     t.traces += 1
@@ -149,7 +169,7 @@ def check_history(t: Tally, defn, hist, base, k, states, vary=False, skip=0, alp
         t.violation({"kind": "reassembly", "observed": okind, "stale_group_reuse": bool(after_last and okind == "mismatch"),
                      "secondary_header_bytes": k},
                     {"history": [list(syms[s]) for s in hist], "hist_idx": list(hist), "base": base, "k": k, "vary_header_bits": vary, "skip_header_bytes": skip,
-                     "alphabet": alphabet, "bare": bare, "tm_only": tm_only},
+                     "alphabet": alphabet, "bare": bare, "tm_only": tm_only, "exact4": exact4},
                     expected=[w.hex() for w in want],
                     observed=[g.hex() for g in got] if not isinstance(got, tuple) else list(got), note=why)
 
@@ -171,11 +191,13 @@ def _task(task):
                         check_history(t, defn, hist, task["bases"][-1], 0, states, vary=True)
                         check_history(t, defn, hist, task["bases"][0], 0, states, vary=True, tm_only=True)
                         check_history(t, defn, hist, task["bases"][0], 0, states, vary=2, tm_only=True)
+                        check_history(t, defn, hist, task["bases"][-1], 0, states, exact4=True)
                         check_history(t, defn, hist, task["bases"][0], (first + n) % 3, states, skip=3 + (first % 2))
                     if n <= task.get("alphabet_b_upto", 4):
                         for base in task["bases"]:
                             check_history(t, defn, hist, base, 0, states, alphabet="B")
                         check_history(t, defn, hist, task["bases"][-1], 0, states, alphabet="C")
+                        check_history(t, defn, hist, task["bases"][0], 0, states, alphabet="B", exact4=True)
                         for kb in (1, 3):
                             check_history(t, defn, hist, task["bases"][0], kb, states, bare=True)
                     t.nontrivial += any(SYMS[s][0] in "FCL" for s in hist)
@@ -330,7 +352,7 @@ def run(ctx):
         "exhaustive": True,
         "bound": (f"EVERY history of length <= {max_len} over 16 symbols ({{F,C,L,U}} x 2 APIDs x sequence step {{+1,+2}})"
                   + ("" if ctx.quick else " (length 5, 6 halved by APID symmetry; length 6 with base 16382 and no secondary header)")
-                  + "; histories of length <= 4 also with version/type/secondary-header-flag bits that differ from packet to packet (decoded by the header-only definition and by one that recognises only type-0 packets), on a second alphabet ({F,C,L,U} on one APID x sequence step {+1,+2,0 (repeated count),-1}), a third one with steps {1, 1025, 4097, 8193}, histories whose later segments carry only their secondary header (or less), groups of 1023 ... 32769 segments (longer than the counter period), valid and with one skipped count, and as raw records (3 or 4 foreign bytes before every packet, skip_header_bytes) with secondary headers of 0..2 bytes; base sequence counts {0, 16382} (wrap-around inside the history); secondary_header_bytes {0,1,3} on the shorter histories; "
+                  + "; histories of length <= 4 also with version/type/secondary-header-flag bits that differ from packet to packet (decoded by the header-only definition and by one that recognises only type-0 packets; and with parse_bad_pkts=False by a definition that only groups of two segments fit), on a second alphabet ({F,C,L,U} on one APID x sequence step {+1,+2,0 (repeated count),-1}), a third one with steps {1, 1025, 4097, 8193}, histories whose later segments carry only their secondary header (or less), groups of 1023 ... 32769 segments (longer than the counter period), valid and with one skipped count, and as raw records (3 or 4 foreign bytes before every packet, skip_header_bytes) with secondary headers of 0..2 bytes; base sequence counts {0, 16382} (wrap-around inside the history); secondary_header_bytes {0,1,3} on the shorter histories; "
                   "every history runs in a fresh generator but all of them on ONE definition object per worker, so group state that outlives a generator "
                   "(or is shared between generators) makes later histories disagree with the model"),
         "rule": ("one evaluation = one history replayed on a fresh generator and on the model; distinct non-trivial = distinct histories containing at "
@@ -352,7 +374,7 @@ def replay(case):
         t = _task_long_groups({"sizes": [case["long_group"]], "base": case["base"]})
         return next((v for v in t.violations if v["case"]["gap_at"] == case["gap_at"]), None)
     t = Tally()
-    check_history(t, header_only_definition(), tuple(case["hist_idx"]), case["base"], case["k"], None, vary=case.get("vary_header_bits", False), skip=case.get("skip_header_bytes", 0), alphabet=case.get("alphabet", "A"), bare=case.get("bare", False), tm_only=case.get("tm_only", False))
+    check_history(t, header_only_definition(), tuple(case["hist_idx"]), case["base"], case["k"], None, vary=case.get("vary_header_bits", False), skip=case.get("skip_header_bytes", 0), alphabet=case.get("alphabet", "A"), bare=case.get("bare", False), tm_only=case.get("tm_only", False), exact4=case.get("exact4", False))
     return t.violations[0] if t.violations else None
 
 
